@@ -37,7 +37,8 @@ def main():
         try:
             for c in checks:
                 t = time.time()
-                r = subprocess.run([os.path.join(HERE, 'vcheck'), c, '--tier', a.tier], capture_output=True, text=True)
+                env = dict(os.environ, NDVC_EVIDENCE_DIR='/tmp/ndvc_seed_evidence')      # keep the committed evidence (clean tree)
+                r = subprocess.run([os.path.join(HERE, 'vcheck'), c, '--tier', a.tier], capture_output=True, text=True, env=env)
                 viol = [l for l in r.stdout.splitlines() if l.startswith('VIOLATION')]
                 repl = sum(1 for l in viol if 'no-failing-input-found' not in l)
                 results.setdefault(i, {})[c] = dict(exit=r.returncode, violation_lines=len(viol), replayed_natively=repl,
